@@ -52,8 +52,9 @@ class C19:
 
     def strategy(self, tier):
         lat = st.sampled_from([0.0002, 0.0005, 0.001, 0.0025])
-        return st.builds(lambda sh, ds, seed, lc, ls, cm, sas: dict(sh, data_seed=ds, seeds=[seed], lat={"C": [lc], "S": [ls]}, max_cmdt=cm, sas=sas),
-                         st.sampled_from(shapes()), st.integers(0, 10 ** 5), st.integers(0, 0xFFFF), lat, lat,
+        return st.builds(lambda sh, ds, seeds, lc, ls, cm, sas: dict(sh, data_seed=ds, seeds=seeds, lat={"C": [lc], "S": [ls]}, max_cmdt=cm, sas=sas),
+                         st.sampled_from(shapes()), st.integers(0, 10 ** 5),
+                         st.lists(st.integers(0, 0xFFFF), min_size=1, max_size=3, unique=True), lat, lat,
                          st.sampled_from([[1, 1], [255, 255], [2, 1]]), st.sampled_from([[0xF9, 0xD4, 0xA7], [0xF9, 0xD4, 0xA7], [0x00, 0xD4, 0xA7], [0x01, 0x00, 0xFD], [0xFD, 0x80, 0x00], [0x7F, 0xFD, 0x01]]))
 
     def examples(self, tier):
@@ -65,7 +66,9 @@ class C19:
             for sas in ([0xF9, 0xD4, 0xA7], [0x00, 0xD4, 0xA7]):       # incl. the boundary requester address 0
                 if sas[0] == 0 and sh["copies"] == 3 and sh["nbytes"] == 4:
                     continue
-                out.append(dict(sh, data_seed=7 + i, seeds=[0xA55A], lat={"C": [0.0005], "S": [0.0005]}, max_cmdt=[1, 1], sas=sas))
+                # the seed generator is NOT constant: every draw gives another seed (a redraw during a transaction is visible)
+                out.append(dict(sh, data_seed=7 + i, seeds=[0xA55A, 0x1234, 0x0F0F, 0xFFFE], lat={"C": [0.0005], "S": [0.0005]},
+                                max_cmdt=[1, 1], sas=sas))
         return out
 
     def exhaustive(self, tier):
